@@ -180,14 +180,14 @@ MISBEHAVIOURS = ("b1-wrong-num", "b1-more-on-final", "b1-continue-on-final", "b2
 def misgrid(tier):
     out = []
     for mis in MISBEHAVIOURS:
-        for at in range(0, 5):
-            for method in ("PUT", "GET"):
-                for szx in (0, 2):
+        for at in range(0, 5 if tier == "quick" else 8):
+            for method in ("PUT", "GET") if tier == "quick" else ("PUT", "POST", "FETCH", "GET"):
+                for szx in (0, 2) if tier == "quick" else (0, 1, 2, 4):
                     size = 1 << (szx + 4)
-                    for nb in (2, 4, 5) if tier == "quick" else (2, 3, 4, 5, 6):
+                    for nb in (2, 4, 5) if tier == "quick" else (2, 3, 4, 5, 6, 7, 8):
                         for tail in (0, 3):
                             L = size * (nb - 1) + (tail or size)
-                            l1 = L if method == "PUT" else 0
+                            l1 = L if method != "GET" else 0
                             l2 = L if mis.startswith("b2") else 10
                             if mis.startswith("b1") and method == "GET":
                                 continue
@@ -270,6 +270,9 @@ def schedule_scenarios(tier, seed):
     s = [BwScenario("PUT", 50, 40, 0, K, seed), BwScenario("GET", 0, 70, 0, K, seed), BwScenario("POST", 35, 35, 0, K, seed)]
     if tier == "quick":
         s.append(BwScenario("PUT", 40, 10, 0, 2, seed))
+    else:
+        s += [BwScenario("FETCH", 40, 40, 0, K, seed), BwScenario("PUT", 100, 10, 1, K, seed), BwScenario("GET", 0, 100, 1, K, seed),
+              BwScenario("PUT", 40, 10, 0, 3, seed), BwScenario("GET", 0, 40, 0, 3, seed)]
     return s
 
 
